@@ -238,6 +238,64 @@ func VerifC13_Query() {
 	rt.Reach("query-end")
 }
 
+// a query (or the query phase of a qsub) whose result stream breaks off with an
+// error - the in-memory backend gives up when the client stalls for more than
+// a second with more than ten records outstanding - is ended by exactly one
+// error reply, nothing after it
+func VerifC13_QueryStreamFailure() {
+	rt.SchedYieldOnly(true)
+	rt.CodecFaults(false)
+	api := c13Setup()
+	keys := []string{}
+	for i := 0; i < 13; i++ {
+		keys = append(keys, "tdb:q/"+string(rune('a'+i)))
+	}
+	c13Seed(api, keys...)
+	// the client stalls on the first record for three seconds
+	stalled := false
+	stall := 3 * time.Second
+	if !rt.Symbolic() {
+		stall = 1500 * time.Millisecond // (longer than the backend's one second)
+	}
+	c13OnReply = func(data []byte) {
+		if !stalled && bytes.Contains(data, []byte("|ok|")) {
+			stalled = true
+			time.Sleep(stall)
+		}
+	}
+	method := []string{"query", "qsub"}[rt.Choice("method", 2)]
+	api.Handle(c13Msg("q9", method, "query tdb:q/"))
+	rt.Quiesce(20 * time.Second)
+	rt.Quiesce(20 * time.Second) // (natively 3 s in all: twice the client's stall)
+	terminal, afterError := 0, 0
+	last := ""
+	sawError := false
+	for _, r := range c13Replies {
+		rt.Assert(bytes.HasPrefix(r, []byte("q9|")), "streamfailure/reply-carries-opid")
+		if sawError {
+			afterError++
+		}
+		switch c13Kind(r) {
+		case "done", "error":
+			terminal++
+			last = c13Kind(r)
+			if last == "error" {
+				sawError = true
+			}
+		}
+	}
+	if sawError {
+		rt.Assert(terminal == 1, "streamfailure/exactly-one-terminal-reply")
+		rt.Assert(afterError == 0, "streamfailure/nothing-after-the-error")
+	}
+	rt.ObserveStr("last", last)
+	if method == "qsub" && !sawError {
+		api.Handle([]byte("q9|cancel"))
+		rt.Quiesce(time.Second)
+	}
+	rt.Reach("streamfailure-end")
+}
+
 func VerifC13_Sub() {
 	rt.SchedYieldOnly(true)
 	api := c13Setup()
